@@ -273,7 +273,8 @@ func (c *Calcium) SetNode(ctx context.Context, opts *types.SetNodeOptions) (*typ
 				if len(opts.Resources) == 0 {
 					return nil
 				}
-				_, _, err = c.rmgr.SetNodeResourceCapacity(ctx, n.Name, nil, origin, false, plugins.Decr)
+				// write the capacity as it was back as a whole (origin is a node resource, not a request)
+				_, _, err = c.rmgr.SetNodeResourceCapacity(ctx, n.Name, origin, nil, false, plugins.Incr)
 				return err
 			},
 			c.config.GlobalTimeout)
